@@ -1,6 +1,6 @@
 (* C04 -- Parsing untrusted bytes never panics, aborts or hangs.
    Statements only; the proofs are in Proofs/Safe*Proofs.v.  [bytes] is [list byte]: "forall bs" is every byte string. *)
-From LV Require Import Base.Bytes Model.Utf Model.OneByte Model.RangeMap Model.CMap Model.CMapParser Gen.Tables
+From LV Require Import Base.Bytes Model.Utf Model.OneByte Model.RangeMap Model.CMap Model.CMapParser Gen.Tables Gen.ObjStmC
      Model.Obj Model.Parser Model.Xref Model.Loader Model.LoaderExt Model.Safe Model.SafeFilt Model.SafeText Model.SafeContent
      Model.SafeXref Model.SafeObjStm
      Proofs.SafeFiltProofs Proofs.SafeTextProofs Proofs.SafeContentProofs Proofs.SafeXrefProofs
@@ -181,20 +181,27 @@ Proof. vm_compute. reflexivity. Qed.
 (* ---------------- rung 3: ObjectStream::new ---------------- *)
 (* `first_offset + chunk[1] as usize` cannot overflow (first_offset <= content.len() <= isize::MAX, the other a u32),
    `numbers[..len]` is in range; the bytes parsed and kept by one object stream: every single request at most
-   |content|, the total at most pairs * |content| -- QUADRATIC, and attained when pairs share an offset:
-   known finding C04-objstm-shared-offsets (a 12.8 KB file makes load_mem allocate more than 1 GiB) *)
+   |content|, the total -- what the members are charged: the span of the object, the whole rest where there is none --
+   at most (MAX_MEMBER_OVERLAP + 1) * |content| for EVERY index and whatever the parser answers: LINEAR since the repair of
+   C04-objstm-shared-offsets (the last run may start at the limit and take |content| more).  On the pinned code every
+   pair ran: the sum of the rests, pairs * |content| when pairs share an offset (a 12.8 KB file made load_mem allocate
+   more than 1 GiB): C04_objstm_pinned_quadratic. *)
 Theorem C04_objstm_arith_no_panic : forall first off numbers, first <= ISIZE_MAX -> off <= U32_MAX ->
   sobjstm_offset first off = ret (first + off) /\ no_panic (sobjstm_even numbers).
 Proof. intros. split; [apply sobjstm_offset_no_panic; assumption|apply sobjstm_even_no_panic]. Qed.
-Theorem C04_objstm_work : forall len first offs, first <= ISIZE_MAX -> Forall (fun o => o <= U32_MAX) offs ->
-  no_panic (sobjstm_work len first offs)
-  /\ outcome (sobjstm_work len first offs) = SOk (total_rest len first offs)
-  /\ max_alloc (sobjstm_work len first offs) <= len
-  /\ total_rest len first offs <= N.of_nat (length offs) * len.
+Theorem C04_objstm_work : forall len first ous, first <= ISIZE_MAX -> Forall (fun ou => fst ou <= U32_MAX) ous ->
+  no_panic (sobjstm_work len first ous)
+  /\ exists spent, outcome (sobjstm_work len first ous) = SOk spent
+     /\ steps (sobjstm_work len first ous) <= spent
+     /\ max_alloc (sobjstm_work len first ous) <= len
+     /\ spent <= (MAX_MEMBER_OVERLAP + 1) * len.
 Proof. exact sobjstm_work_safe. Qed.
-Theorem C04_objstm_quadratic_witness : forall n len, 0 < len ->
-  total_rest len 0 (repeat 0 n) = N.of_nat n * len /\ KnownSharedOffsets (repeat 0 (S (S n))) = true.
+Theorem C04_objstm_pinned_quadratic : forall n len, 0 < len ->
+  total_rest len 0 (repeat 0 n) = N.of_nat n * len.
 Proof. exact sobjstm_work_quadratic_witness. Qed.
+Theorem C04_objstm_shared_offsets_linear : forall n len used,
+  exists spent, outcome (sobjstm_work len 0 (repeat (0, used) n)) = SOk spent /\ spent <= (MAX_MEMBER_OVERLAP + 1) * len.
+Proof. exact sobjstm_shared_offsets_linear. Qed.
 
 (* ---------------- rung 3: the cross-reference table, and the composition Reader::read ---------------- *)
 (* c02's Model/Xref.v: the table parser and the stream decoder end in a value or an error on every input
@@ -261,7 +268,8 @@ Print Assumptions C04_get_xref_start_safe.
 Print Assumptions C04_example_get_xref_start.
 Print Assumptions C04_objstm_arith_no_panic.
 Print Assumptions C04_objstm_work.
-Print Assumptions C04_objstm_quadratic_witness.
+Print Assumptions C04_objstm_pinned_quadratic.
+Print Assumptions C04_objstm_shared_offsets_linear.
 Print Assumptions C04_xref_table_safe.
 Print Assumptions C04_xref_stream_model_safe.
 Print Assumptions C04_load_no_panic_partial.
